@@ -416,7 +416,7 @@ def check_mutation(ctx, r3, f):
             muts.append((n, c))
     if not muts:
         raise AnalysisError('C15.R3: no mutation found in %s' % f.qname)
-    names = ['check_db_obj_access'] + ownership_wrappers(ctx)
+    names = ownership_wrappers(ctx)
     checks = [n for n, c in U.calls_in(cfg, *names)]
     for n, c in muts:
         ok = any(cfg.dominates(k, n) and k is not n for k in checks)
@@ -427,32 +427,39 @@ def check_mutation(ctx, r3, f):
 
 
 def ownership_wrappers(ctx):
-    """DB-API helpers that amount to check_db_obj_access(<their first
-    parameter>): the call is reached on every path on which a security
-    context exists (`context.has_ctx()`); without a context there is no
-    tenant to protect against (internal callers such as DB population)."""
+    """Names of functions that are ownership checks on their first
+    parameter P: the normal exit is unreachable when a security context
+    exists, the caller is not an admin and P.project_id differs from the
+    caller's project (decided by the state-domain evaluator, so any
+    spelling of the test works).  Without a context there is no tenant to
+    protect against (internal callers such as DB population)."""
     prog = ctx.prog
     out = []
-    for f in prog.funcs_in_module(DB):
-        if f.parent is not None or not f.params:
+    cands = [f for f in prog.funcs_in_module(DB)] + \
+        [f for f in prog.funcs_in_module('mistral.db.utils')]
+    for f in cands:
+        if f.parent is not None or not f.params or len(f.params) > 2:
             continue
+        src = ast.unparse(f.node)
+        if 'project_id' not in src or 'is_admin' not in src:
+            continue
+        p = f.params[0]
+        differs = '%s.project_id != security.get_project_id()' % p
         cfg = ctx.cfg(f)
-        sites = U.calls_in(cfg, 'check_db_obj_access')
-        if len(sites) != 1:
-            continue
-        n, c = sites[0]
-        if not (c.args and isinstance(c.args[0], ast.Name) and
-                c.args[0].id == f.params[0]):
-            continue
-        guards = [(norm(t), pol) for (t, pol, _g) in cfg.guards(n)
-                  if isinstance(t, ast.expr)]
-        if all(g == ('context.has_ctx()', True) for g in guards) and \
-                len(f.node.body) <= 3:
-            # every path with a context passes the check
-            IN, keys = ctx.sd.analyze(cfg, f, [('context.has_ctx()',
-                                                (False, True))],
-                                      block={n.id})
-            if True not in ctx.sd.values_at(IN, keys, cfg.exit,
-                                            'context.has_ctx()'):
-                out.append(f.name)
+        variables = [('context.has_ctx()', (False, True)),
+                     ('context.ctx().is_admin', (False, True)),
+                     ('ctx.is_admin', (False, True)),
+                     ('is_admin', (False, True)),
+                     (differs, (False, True))]
+        IN, keys = ctx.sd.analyze(
+            cfg, f, variables,
+            alias={'security.get_project_id() != %s.project_id' % p:
+                   differs})
+        bad = [v for v in IN[cfg.exit.id]
+               if v[0] and not v[1] and not v[2] and not v[3] and v[4]]
+        if not bad and IN[cfg.exit.id]:
+            out.append(f.name)
+    if 'check_db_obj_access' not in out:
+        raise AnalysisError('C15.R3: db.utils.check_db_obj_access is no '
+                            'longer recognised as an ownership check')
     return out
